@@ -45,6 +45,15 @@ def structures(res, rng):
     return out
 
 
+_SUB = {}
+
+
+def _sub(base):
+    if base not in _SUB:
+        _SUB[base] = type('My' + base.__name__, (base,), {})
+    return _SUB[base]
+
+
 def oracle(res, cux, ComplexS, s, rng):
     """label-transport oracle on the real code"""
     n = s.count('+') + 1
@@ -80,6 +89,9 @@ def oracle(res, cux, ComplexS, s, rng):
         cu.fresh_results(res, 'rotate_complex_once', lambda: cux.rotate_complex_once(list(seq), list(sst)), d)
         cu.fresh_results(res, 'rotate_complex_db', lambda: cux.rotate_complex_db(list(seq), list(sst)), d)
         cu.fresh_results(res, 'rotate_complex_pt', lambda: cux.rotate_complex_pt(cux.make_strand_table(list(seq)), cux.make_pair_table(s)), d)
+    if n > 1:
+        cu.same_for_forms(res, 'rotate_complex_once', [('structure as list', lambda: cux.rotate_complex_once(list(seq), list(sst))),
+                                                       ('structure as str', lambda: cux.rotate_complex_once(list(seq), s))], {'op': ['rot1', ' '.join(seq), s]})
     # the two utility generator families (no explicit turn count)
     stab = cux.make_strand_table(seq)
     ptab = cux.make_pair_table(s)
@@ -101,7 +113,9 @@ def oracle(res, cux, ComplexS, s, rng):
     # object methods
     from dsdobjects import clear_singletons
     clear_singletons(ComplexS)
-    c = ComplexS(list(seq), list(sst), name='X')
+    K = ComplexS if rng.random() < 0.7 else _sub(ComplexS)          # sometimes a user subclass
+    clear_singletons(K)
+    c = K(list(seq), list(sst), name='X')
     r1 = [(list(a), list(b)) for a, b in c.rotate()]
     r2 = [(a, b) for a, b in c.rotate_pt()]
     if r1 != objrots or [(cux.strand_table_to_sequence(a), cux.pair_table_to_dot_bracket(b)) for a, b in r2] != objrots:
